@@ -44,7 +44,7 @@ SpellOfEv(r) ==
     [fr |-> r.fr, unit |-> r.unit, fmt |-> r.fmt, mf |-> r.mf, ord |-> r.ord,
      perm |-> r.perm, omit |-> SeqToSet(r.omit), kwp |-> r.kwp, ref |-> r.ref,
      mfx |-> r.mfx, noise |-> r.noise, deco |-> r.deco, num |-> r.num,
-     lb |-> r.lb, acc |-> r.acc]
+     lb |-> r.lb, acc |-> r.acc, tol |-> r.tol]
 
 TokOf(t) == [k |-> t[1], v |-> t[2]]
 OptionOfEv(g) == [k \in 1..Len(g.option) |-> TokOf(g.option[k])]
@@ -70,6 +70,9 @@ TSLoad ==
                         !.lines = ev.gen.lines, !.kws = ev.gen.kws]
         d  == Decode(w)
         ft == IF d.version = 1 THEN "ts1" ELSE "ts2"
+        \* constructs outside the format definitions may be refused or
+        \* tolerated (with warnings only); everything else must load
+        strict == s.tol = "none"
     IN /\ ev.e = "SLoad"
        /\ nbad' = nbad + SumChecks(<<
             \* harness self-check: the text is the requested spelling
@@ -79,7 +82,11 @@ TSLoad ==
             Chk(ev.gen.kws = t.kws, <<l, "SLoad", "gen:kws", t.kws>>),
             Chk(Denotes(c, s), <<l, "SLoad", "gen:denotes", c>>),
             \* the library
-            Chk(d.ok => Succeeded(ev), <<l, "SLoad", "ok", d>>),
+            Chk((d.ok /\ strict) => Succeeded(ev), <<l, "SLoad", "ok", d>>),
+            \* vnaerr(3): no report other than warnings on a call that
+            \* succeeds; exactly one, matching errno, on a call that fails
+            Chk(CbQuietOnSuccess(ev), <<l, "SLoad", "cbOnSuccess", "warnings only">>),
+            Chk(CbOnceOnFailure(ev), <<l, "SLoad", "cbOnFailure", "one report matching errno">>),
             Chk((d.ok /\ ev.ok = 1) => ev.p.type = d.param,
                 <<l, "SLoad", "type", d.param>>),
             Chk((d.ok /\ ev.ok = 1) => (ev.p.rows = d.ports /\ ev.p.cols = d.ports),
@@ -116,6 +123,8 @@ TNLoad ==
        /\ nbad' = nbad + SumChecks(<<
             Chk(good, <<l, "NLoad", "gen:valid", s>>),
             Chk(good => Succeeded(ev), <<l, "NLoad", "ok", TRUE>>),
+            Chk(CbQuietOnSuccess(ev), <<l, "NLoad", "cbOnSuccess", "warnings only">>),
+            Chk(CbOnceOnFailure(ev), <<l, "NLoad", "cbOnFailure", "one report matching errno">>),
             Chk((good /\ ev.ok = 1) => ev.p.type = c.type, <<l, "NLoad", "type", c.type>>),
             Chk((good /\ ev.ok = 1) => (ev.p.rows = dims[1] /\ ev.p.cols = dims[2]),
                 <<l, "NLoad", "dims", dims>>),
@@ -139,7 +148,11 @@ TNLoad ==
 TPLoad ==
     LET ev == TraceLog[l]
     IN /\ ev.e = "PLoad"
-       /\ nbad' = nbad + SumChecks(<< Chk(Succeeded(ev), <<l, "PLoad", "ok", TRUE>>) >>)
+       /\ nbad' = nbad + SumChecks(<<
+            Chk(Succeeded(ev), <<l, "PLoad", "ok", TRUE>>),
+            Chk(CbQuietOnSuccess(ev), <<l, "PLoad", "cbOnSuccess", "warnings only">>),
+            Chk(CbOnceOnFailure(ev), <<l, "PLoad", "cbOnFailure", "one report matching errno">>)
+          >>)
        /\ first' = None
 
 TEnd ==
